@@ -121,10 +121,34 @@ def impl_uclient(ops):
     return out, mops
 
 
-def check_uclient(run, n_seq):
+def uops_permutations(rng, per):
+    """every order of the three UdpClient setters x every position of connect() among them, values on both sides of the
+    defaults (keep-alive 1536, connect time-out 30720, message time-out 15360) and of each other, then updates"""
+    import itertools
+    out = []
+    grid = [15, 150, 768, 1536, 3000, 15360, 30720, 76800]
+    for perm in itertools.permutations([0, 1, 2]):
+        for pos in range(4):
+            for _ in range(per):
+                now = T * 100
+                vals = {k: rng.choice(grid) for k in (0, 1, 2)}
+                ops = [[k, vals[k]] for k in perm]
+                ops.insert(pos, [3, now, rng.randrange(2)])
+                if rng.random() < 0.5:
+                    k = rng.choice(perm)
+                    ops.append([k, rng.choice(grid)])      # one of them set a second time
+                for _ in range(2):
+                    now += rng.choice([15, 300, 1500])
+                    ops.append([4, now])
+                out.append(ops)
+    return out
+
+
+def check_uclient(run, n_seq, extra_seqs=()):
     cases, impl, margs, raised = [], [], [], []
-    for i in range(n_seq):
-        ops = gen_uops(run.rng, run.rng.randrange(1, 9))
+    seqs = [None] * n_seq + list(extra_seqs)
+    for i, given in enumerate(seqs):
+        ops = gen_uops(run.rng, run.rng.randrange(1, 9)) if given is None else given
         obs, mops = impl_uclient(ops)
         # oracle: no setter / connect / update call raises; the connection carries the last values set
         last = {0: 1536, 1: 2 * T, 2: T}
@@ -171,6 +195,49 @@ def impl_scfg(ops):
     new = new_conn_via_server(ctxt)
     return [S.ticks(ctxt.keep_alive_interval), S.ticks(ctxt.connection_timeout), S.ticks(ctxt.temp_connection_timeout),
             S.ticks(ctxt.outgoing_timeout), S.ticks(new.send_keep_alive_interval), S.ticks(new.outgoing_timeout)]
+
+
+SCFG_DEFAULTS = {0: 1536, 1: 5 * T, 2: 2 * T, 3: T}          # keep-alive, connection, handshake, message (ticks)
+SCFG_NAMES = ["setKeepAliveInterval", "setConnectionTimeout", "setTempConnectionTimeout", "setMessageTimeout"]
+
+
+def scfg_permutations(rng, per):
+    """every order of the four ServerContext setters; value vectors: (a) everything below the defaults, keep-alive the smallest
+    (a LAN configuration), (b) everything above, (c) drawn freely from a grid on both sides of the defaults and of each other;
+    optionally one setter called a second time"""
+    import itertools
+    grid = [150, 300, 768, 1536, 3000, 15360, 30720, 76800, 153600]
+    out = []
+    for perm in itertools.permutations([0, 1, 2, 3]):
+        vecs = [{0: rng.choice([150, 300]), 1: rng.choice([600, 768, 1200]), 2: rng.choice([450, 768, 1500]), 3: rng.choice([300, 768])},
+                {0: rng.choice([3000, 15360]), 1: rng.choice([92160, 153600]), 2: rng.choice([46080, 153600]), 3: rng.choice([30720, 76800])}]
+        for _ in range(per):
+            vecs.append({k: rng.choice(grid) for k in range(4)})
+        for v in vecs:
+            ops = [[k, v[k]] for k in perm]
+            if rng.random() < 0.3:
+                ops.append([rng.randrange(4), rng.choice(grid)])
+            out.append(ops)
+    return out
+
+
+def scfg_oracle(run, ops, got):
+    """settings made on the ServerContext take effect: every setting holds the value given to its setter last (the default
+    when the setter was never called), whatever the order of the calls; a connection the server creates carries them"""
+    last = dict(SCFG_DEFAULTS)
+    for k, v in ops:
+        last[k] = v
+    exp = [last[0], last[1], last[2], last[3], last[0], last[3]]
+    if not last[0] < last[1]:
+        run.count("scfg_cases_outside_the_quantifier(keep-alive >= time-out: model comparison only)")
+        return
+    if got != exp:
+        names = ["keep_alive_interval", "connection_timeout", "temp_connection_timeout", "outgoing_timeout",
+                 "new connection send_keep_alive_interval", "new connection outgoing_timeout"]
+        run.oracle_violation("server-setting-not-effective",
+                             {"calls_in_order": [[SCFG_NAMES[k], v] for k, v in ops], "ticks_per_second": T,
+                              "wrong": {names[i]: {"holds": got[i], "set_last": exp[i]} for i in range(6) if got[i] != exp[i]}},
+                             "context.py:ServerContext setters")
 
 
 def new_conn_via_server(ctxt):
@@ -427,23 +494,41 @@ SRV_RULE = ("server-loop worlds (harness/srvx.py): for every front door (Twisted
             "construction and start whose silent client and stalled peer were both removed")
 
 
-def settings_world(run, rng, idx, front, configure, rerun_setters):
+ORDER_RULE = ("setter ORDER: all 24 orders of the four ServerContext setters (unit scfg_run: value vectors all below the defaults with the "
+              "keep-alive smallest, all above, free; one setter possibly repeated — and settings worlds configured between construction and "
+              "start in that order, 2 of 3 with a LAN configuration below every default: connection time-out 50-100 ms, keep-alive 10-30 ms, "
+              "tick 10-20 ms, clients set their keep-alive after connect()); all 6 orders of the UdpClient setters x 4 positions of connect(); "
+              "non-trivial = every enumerated case")
+
+
+def settings_world(run, rng, idx, front, configure, rerun_setters, order=None, lan=False):
+    """order: the order in which the four public setters are called (configure="between"); lan: a configuration BELOW the defaults
+    (time-outs of tens of milliseconds, keep-alive below the send interval) — the clients then set their own keep-alive interval
+    through UdpClient.setKeepAliveInterval after connect() so that the idle link is legal (keep-alive + ticks < time-out)"""
     from harness import srvsim as V, srvx as X
     Tconn = rng.choice([7680, 15360, 46080, 5 * T, 8 * T])
     Ttemp = rng.choice([3840, 7680, 2 * T, 4 * T])
     K = rng.choice([k for k in (765, 1536, 3000, 7680) if k < Tconn])
     Tmsg = rng.choice([3840, T, 2 * T])
+    dt_lan = None
+    if lan:
+        Tconn, K, dt_lan = rng.choice([(768, 150, 150), (1200, 300, 150), (1500, 150, 300), (1200, 450, 225)])
+        Ttemp = rng.choice([1500, 3840, 7680])
+        Tmsg = rng.choice([768, 3840])
     cfg = (Tconn, Ttemp, K, Tmsg)
     policy = V.random_policy(rng, p_raise=rng.choice([0.0, 0.3]), echo=0.0, chatty=False)     # a raising handler changes no time-out
     try:
-        w = X.WorldX(run, rng, cfg=cfg, policy=policy, full=True, front=front, configure=configure)
+        w = X.WorldX(run, rng, cfg=cfg, policy=policy, full=True, front=front, configure=configure, setter_order=order)
     except Exception as e:      # noqa  (a setter raised)
         run.oracle_violation("server-setting-raised", {"world": idx, "front": front, "configured": configure, "cfg": list(cfg),
+                                                       "setter_order": list(order) if order else None,
                                                        "exception": repr(e)[:120]}, "ServerContext setters")
         return None, None
     sim = w.sim
     base = {"scenario": "server settings", "world": idx, "front": front, "configured": configure,
             "connection_timeout": Tconn, "temp_connection_timeout": Ttemp, "keep_alive": K, "message_timeout": Tmsg}
+    if order:
+        base["setter_order"] = list(order)
     a_idle, a_silent, a_stall = ("10.12.0.1", 5001), ("10.12.0.2", 5002), ("10.12.0.3", 5003)
     last_fed, prev_fed, cid_addr, disconnected, connected_before = {}, {}, {}, {}, set()
     stall_hello_at = None
@@ -456,6 +541,11 @@ def settings_world(run, rng, idx, front, configure, rerun_setters):
         dt = rng.choice([300, 600, 1500])
         go_silent = rng.randrange(14, 24)
         horizon = go_silent + (max(Tconn, Ttemp, 5 * T) + 2 * T) // dt + 6
+        if lan:
+            dt = dt_lan
+            horizon = go_silent + (max(Tconn, Ttemp) + 1536) // dt + 8
+            for rec in (idle, silent):
+                rec["hc"].client.setKeepAliveInterval(K / T)
         settings_seen = False
         for st in range(horizon):
             if st == go_silent:
@@ -466,8 +556,14 @@ def settings_world(run, rng, idx, front, configure, rerun_setters):
             if rerun_setters and st in (5, go_silent + 3):
                 try:
                     c = sim.ctxt
-                    c.setConnectionTimeout(Tconn / T); c.setTempConnectionTimeout(Ttemp / T)
-                    c.setKeepAliveInterval(K / T); c.setMessageTimeout(Tmsg / T)
+                    if order:
+                        vals = {"setConnectionTimeout": Tconn / T, "setTempConnectionTimeout": Ttemp / T,
+                                "setKeepAliveInterval": K / T, "setMessageTimeout": Tmsg / T}
+                        for name in order:
+                            getattr(c, name)(vals[name])
+                    else:
+                        c.setConnectionTimeout(Tconn / T); c.setTempConnectionTimeout(Ttemp / T)
+                        c.setKeepAliveInterval(K / T); c.setMessageTimeout(Tmsg / T)
                 except Exception as e:      # noqa
                     viol.append(("server-setting-raised", {"exception": repr(e)[:120], "when": "running"}))
             n0 = len(sim.log)
@@ -541,6 +637,10 @@ def settings_world(run, rng, idx, front, configure, rerun_setters):
             run.oracle_violation(what, dict(base, **case), "server.py sweep / ServerContext")
         run.count("settings_worlds")
         run.count("settings_worlds_" + configure)
+        if order:
+            run.count("settings_worlds_with_permuted_setters")
+        if lan:
+            run.count("settings_worlds_below_the_defaults")
         run.evaluations += len(sim.steps)
         if configure == "between" and {"silent-dropped", "stalled-removed"} <= facts:
             run.nt(("settings-world", idx, front, cfg))
@@ -552,7 +652,8 @@ def run(run):
     rng = run.rng
     th = run.thorough()
     # 1. UdpClient setters
-    check_uclient(run, 1500 if th else 150)
+    check_uclient(run, 1500 if th else 150, uops_permutations(rng, 4 if th else 1))
+    run.exhaustive.append("UdpClient: all 6 orders of the three setters x 4 positions of connect()")
     # 2. ServerContext settings
     cases, impl, margs = [], [], []
     for i in range(40 if th else 6):
@@ -560,6 +661,20 @@ def run(run):
         cases.append(ops)
         impl.append(impl_scfg(ops))
         margs.append([ops])
+    for ops in scfg_permutations(rng, 6 if th else 1):
+        try:
+            got = impl_scfg(ops)
+        except Exception as e:      # noqa
+            run.oracle_violation("server-setting-raised", {"calls_in_order": [[SCFG_NAMES[k], v] for k, v in ops], "exception": repr(e)[:120]},
+                                 "context.py:ServerContext setters")
+            continue
+        scfg_oracle(run, ops, got)
+        cases.append(ops)
+        impl.append(got)
+        margs.append([ops])
+        run.nt(("scfg", tuple(map(tuple, ops))))
+        run.count("scfg_permutation_cases")
+    run.exhaustive.append("ServerContext: all 24 orders of the four setters")
     run.compare("scfg_run", cases, impl, run.model.call_many("scfg_run", margs))
     # 3. the drop test
     cases, impl = [], []
@@ -609,6 +724,18 @@ def run(run):
             c, diff = settings_world(run, rng, i, front, configure, rerun_setters=(i % 3 == 2))
         if c is not None:
             cases.append(c); impl.append("agree"); mod.append("agree" if not diff else "differ")
+    # 8. every ORDER of the four public setters between construction and start, with configurations below and above the defaults
+    import itertools
+    perms = list(itertools.permutations(X.SETTERS))
+    rng.shuffle(perms)
+    for i, order in enumerate(perms * (3 if th else 1)):
+        front = X.FRONTS[i % len(X.FRONTS)]
+        with X.logging_enabled():
+            c, diff = settings_world(run, rng, 1000 + i, front, "between", rerun_setters=(i % 4 == 3), order=order, lan=(i % 3 != 2))
+        if c is not None:
+            cases.append(c); impl.append("agree"); mod.append("agree" if not diff else "differ")
+    run.exhaustive.append("settings worlds: all 24 orders of the four ServerContext setters between construction and start")
     run.compare("srv_run", cases, impl, mod)
+    run.rules.append(ORDER_RULE)
     run.rules.append(SRV_RULE)
     run.rules.append(RULE)
